@@ -247,7 +247,8 @@ Proof.
     replace (m <=? 12) with true by (symmetry; apply Z.leb_le; lia). py_run. reflexivity.
 Qed.
 
-(* Feb of a year <= 0: is_leap_year raises TypeError (the finding C17-date-year-zero) *)
+(* Feb of a year <= 0: is_leap_year raises TypeError (unreachable from normalize_year /
+   months_inc since repair 7da3fd9: they return before asking for the month length) *)
 Lemma max_days_raise y : y <= 0 ->
   date_time.f_max_days_in_month (VInt 2) (VInt y) = Raise TypeError.
 Proof.
@@ -265,28 +266,30 @@ Proof. reflexivity. Qed.
 Lemma retup_raise e : retup (Raise e) = Raise e.
 Proof. reflexivity. Qed.
 
-(* one call of normalize_year on a month that is already in 1..12 *)
-Lemma normalize_step f y m d k : 1 <= m <= 12 ->
+(* one call of normalize_year on a month that is already in 1..12, year >= 1 *)
+Lemma normalize_step f y m d k : 1 <= m <= 12 -> 1 <= y ->
   date_time.f_max_days_in_month (VInt m) (VInt y) = Ok (VInt k) ->
   date_time.f_normalize_year (S f) (VInt y) (VInt m) (VInt d) =
     if d <=? 0 then retup (date_time.f_normalize_year f (VInt y) (VInt (m - 1)) (VInt (d + k)))
     else if k <? d then retup (date_time.f_normalize_year f (VInt y) (VInt (m + 1)) (VInt (d - k)))
     else Ok (VTuple [VInt y; VInt m; VInt d]).
 Proof.
-  intros Hm Hk. cbn [date_time.f_normalize_year]. py_run.
+  intros Hm Hy Hk. cbn [date_time.f_normalize_year]. py_run.
   replace (1 <=? m) with true by (symmetry; apply Z.leb_le; lia). py_run.
   replace (m <=? 12) with true by (symmetry; apply Z.leb_le; lia). py_run.
+  replace (y <? 1) with false by (symmetry; apply Z.ltb_ge; lia). py_run.
   rewrite Hk. py_run. reflexivity.
 Qed.
 
-Lemma normalize_step_raise f y m d e : 1 <= m <= 12 ->
-  date_time.f_max_days_in_month (VInt m) (VInt y) = Raise e ->
-  date_time.f_normalize_year (S f) (VInt y) (VInt m) (VInt d) = Raise e.
+(* before year 1 there is no such date: the triple is returned as it is (repair
+   7da3fd9; DATE then answers #NUM!) *)
+Lemma normalize_before_year1 f y m d : 1 <= m <= 12 -> y < 1 ->
+  date_time.f_normalize_year (S f) (VInt y) (VInt m) (VInt d) = Ok (VTuple [VInt y; VInt m; VInt d]).
 Proof.
-  intros Hm Hk. cbn [date_time.f_normalize_year]. py_run.
+  intros Hm Hy. cbn [date_time.f_normalize_year]. py_run.
   replace (1 <=? m) with true by (symmetry; apply Z.leb_le; lia). py_run.
   replace (m <=? 12) with true by (symmetry; apply Z.leb_le; lia). py_run.
-  rewrite Hk. py_run. destruct (d <=? 0); reflexivity.
+  replace (y <? 1) with true by (symmetry; apply Z.ltb_lt; lia). reflexivity.
 Qed.
 
 Lemma truediv12 a : py_truediv (VInt a) (VInt 12) = Ok (VFloat (Qred (inject_Z a / inject_Z 12))).
